@@ -92,6 +92,12 @@ pub enum Variant {
     /// C18 (defect D24): after a loop has spun (yielded), the thread does not read again a store
     /// it had already read before that yield once a newer store of the location exists
     Rc11YieldFilter,
+    /// RC11 with one operational restriction, used only to *attribute* known findings of C02
+    /// (defect D16): a SeqCst load does not read a SeqCst store once a SeqCst store that is
+    /// later in modification order has been generated
+    Rc11ScLoadNewest,
+    /// both restrictions (D12/D15 and D16) at once
+    Rc11RmwAndScNewest,
 }
 
 pub fn supported(p: &Program) -> bool {
@@ -273,6 +279,12 @@ fn succ(p: &Program, s: &XSt, t: usize, variant: Variant) -> Vec<XSt> {
                     }
                 }
                 let w = find(s, wk);
+                if matches!(variant, Variant::Rc11ScLoadNewest | Variant::Rc11RmwAndScNewest) && mo == MO::Sc && w.mo == MO::Sc && w.t != INIT_T {
+                    let newer_sc = s.mo[a][wi + 1..].iter().any(|k| find(s, *k).mo == MO::Sc);
+                    if newer_sc {
+                        continue;
+                    }
+                }
                 if let Some(wv) = want {
                     if w.wval != wv {
                         continue;
@@ -370,7 +382,7 @@ fn succ(p: &Program, s: &XSt, t: usize, variant: Variant) -> Vec<XSt> {
                 if i < fl || !can_insert(s, a, i + 1) {
                     continue;
                 }
-                if variant == Variant::Rc11RmwNewest && i + 1 != s.mo[a].len() {
+                if matches!(variant, Variant::Rc11RmwNewest | Variant::Rc11RmwAndScNewest) && i + 1 != s.mo[a].len() {
                     continue;
                 }
                 let w = find(s, wk);
@@ -394,7 +406,7 @@ fn succ(p: &Program, s: &XSt, t: usize, variant: Variant) -> Vec<XSt> {
                 if i < fl {
                     continue;
                 }
-                if variant == Variant::Rc11RmwNewest && i + 1 != s.mo[a].len() {
+                if matches!(variant, Variant::Rc11RmwNewest | Variant::Rc11RmwAndScNewest) && i + 1 != s.mo[a].len() {
                     continue;
                 }
                 let w = find(s, wk);
